@@ -342,6 +342,13 @@ func bindResults(vc *VC, env *Env, sig *types.Signature, names []string, res Val
 		if i < len(names) {
 			env.vars[names[i]] = v
 		}
+		if vc.typeName(rs.At(i).Type()) == "error" {
+			if _, taken := env.vars["err"]; !taken || i == rs.Len()-1 {
+				if nm := rs.At(i).Name(); nm == "" || nm == "_" || nm == "err" {
+					env.vars["err"] = v
+				}
+			}
+		}
 	}
 }
 
@@ -377,6 +384,13 @@ func (fr *Frame) havocModifies(ct *Contract, env *Env, calleeKey string) *Heap {
 			set[f] = true
 		}
 		for _, loc := range locs {
+			if loc.Typ == nil {
+				// whole backing array of one slice
+				cur := vc.lookup(h, loc.Fam)
+				inner := vc.fresh("hv.arr", vc.famSort[loc.Fam][len("(Array Int ") : len(vc.famSort[loc.Fam])-1])
+				h = vc.heapSet(h, loc.Fam, vc.define(loc.Fam, vc.famSort[loc.Fam], "(store "+cur+" "+loc.Idx[0]+" "+inner+")"))
+				continue
+			}
 			nv := vc.freshVal("hv", loc.Typ)
 			fr.typed(nv)
 			h = vc.storeLoc(h, loc, nv)
@@ -415,6 +429,12 @@ func (e *Env) modTargets(m string) (locs []*Loc, fams []string) {
 				if vc.flatStruct(u.Elem()) {
 					return nil, []string{"H_" + vc.typeName(u.Elem()) + ".*"}
 				}
+				if sh := vc.shape(u.Elem()); len(sh) == 1 {
+					// precise: only the backing array of this slice
+					fam := "E_" + vc.typeName(u.Elem())
+					vc.family(fam, famSortFor(sh[0].Sort, 2))
+					return []*Loc{{Fam: fam, Idx: []string{v.L[0]}, Typ: nil}}, nil
+				}
 				return nil, []string{"E_" + vc.typeName(u.Elem()) + "*"}
 			case *types.Map:
 				return nil, []string{"M_" + vc.typeName(u.Key()) + "_" + vc.typeName(u.Elem()) + ".*"}
@@ -450,6 +470,13 @@ func (e *Env) modTargets(m string) (locs []*Loc, fams []string) {
 		e.errf("modifies %q: untyped object", m)
 		return
 	}
+	if _, isI := v.Typ.Underlying().(*types.Interface); isI {
+		if gf, ok := vc.S.Ghosts[vc.typeName(v.Typ)+"."+fld]; ok {
+			fam := "H_" + vc.typeName(v.Typ) + "." + fld
+			vc.family(fam, "(Array Int "+specSort(gf.GType)+")")
+			return []*Loc{{Fam: fam, Idx: []string{v.L[1]}, Typ: nil}}, nil
+		}
+	}
 	pt, ok := v.Typ.Underlying().(*types.Pointer)
 	if !ok {
 		e.errf("modifies %q: %s is not a pointer", m, head)
@@ -463,7 +490,7 @@ func (e *Env) modTargets(m string) (locs []*Loc, fams []string) {
 		gf := vc.S.Ghosts[vc.typeName(T)+"."+fld]
 		fam := "H_" + vc.typeName(T) + "." + fld
 		vc.family(fam, "(Array Int "+specSort(gf.GType)+")")
-		return nil, []string{fam}
+		return []*Loc{{Fam: fam, Idx: []string{v.L[0]}, Typ: nil}}, nil
 	}
 	obj, path, _ := types.LookupFieldOrMethod(T, true, e.pkgOf(T), fld)
 	f, ok := obj.(*types.Var)
@@ -594,7 +621,7 @@ func (vc *VC) modSetCall(c *ssa.CallCommon, set map[string]bool, onpath map[*ssa
 	if c.IsInvoke() {
 		key := "iface " + vc.typeName(c.Value.Type()) + "." + c.Method.Name()
 		if ct := vc.S.Contracts[key]; ct != nil {
-			vc.modSetContract(ct, nil, set)
+			vc.modSetContractArgs(ct, nil, set, c, true)
 			return
 		}
 		if n, ok := types.Unalias(c.Value.Type()).(*types.Named); ok && n.Obj().Pkg() != nil && vc.P.RepoPkgs[n.Obj().Pkg().Path()] {
@@ -639,7 +666,7 @@ func (vc *VC) modSetCall(c *ssa.CallCommon, set map[string]bool, onpath map[*ssa
 		return
 	}
 	if ct := vc.S.Contracts[funcKey(callee)]; ct != nil {
-		vc.modSetContract(ct, callee, set)
+		vc.modSetContractArgs(ct, callee, set, c, false)
 		return
 	}
 	if vc.P.isRepoFunc(callee) && len(callee.Blocks) > 0 {
@@ -666,8 +693,37 @@ func (vc *VC) modSetExternal(c *ssa.CallCommon, set map[string]bool) {
 	}
 }
 
-// modSetContract over-approximates a modifies clause to family names.
+// modSetContractArgs: like modSetContract but resolves parameter-rooted entries
+// (x.f, x[*]) through the static types of the call's arguments.
+func (vc *VC) modSetContractArgs(ct *Contract, callee *ssa.Function, set map[string]bool, c *ssa.CallCommon, invoke bool) {
+	types_ := map[string]types.Type{}
+	var names []string
+	if callee != nil {
+		names = paramNames(callee)
+	} else {
+		names = ct.Params
+	}
+	var argT []types.Type
+	if invoke {
+		argT = append(argT, c.Value.Type())
+	}
+	for _, a := range c.Args {
+		argT = append(argT, a.Type())
+	}
+	for i, n := range names {
+		if i < len(argT) {
+			types_[n] = argT[i]
+		}
+	}
+	vc.modSetContractT(ct, callee, set, types_)
+}
+
 func (vc *VC) modSetContract(ct *Contract, callee *ssa.Function, set map[string]bool) {
+	vc.modSetContractT(ct, callee, set, nil)
+}
+
+// modSetContractT over-approximates a modifies clause to family names.
+func (vc *VC) modSetContractT(ct *Contract, callee *ssa.Function, set map[string]bool, ptypes map[string]types.Type) {
 	if ct.Pure {
 		return
 	}
@@ -689,6 +745,20 @@ func (vc *VC) modSetContract(ct *Contract, callee *ssa.Function, set map[string]
 		case strings.HasPrefix(m, "fam:"):
 			set[strings.TrimPrefix(m, "fam:")] = true
 		case strings.HasSuffix(m, "[*]"):
+			if t, ok := ptypes[strings.TrimSuffix(m, "[*]")]; ok {
+				switch u := t.Underlying().(type) {
+				case *types.Slice:
+					if vc.flatStruct(u.Elem()) {
+						set["H_"+vc.typeName(u.Elem())+".*"] = true
+					} else {
+						set["E_"+vc.typeName(u.Elem())+"*"] = true
+					}
+					continue
+				case *types.Map:
+					set["M_"+vc.typeName(u.Key())+"_"+vc.typeName(u.Elem())+".*"] = true
+					continue
+				}
+			}
 			// element families: type unknown without evaluation -> all element/map families
 			set["E_*"] = true
 			set["M_*"] = true
@@ -700,6 +770,14 @@ func (vc *VC) modSetContract(ct *Contract, callee *ssa.Function, set map[string]
 				continue
 			}
 			fld := m[i+1:]
+			if t, ok := ptypes[m[:i]]; ok && fld != "*" {
+				T := t
+				if pt, ok := T.Underlying().(*types.Pointer); ok {
+					T = pt.Elem()
+				}
+				set["H_"+vc.typeName(T)+"."+fld+"*"] = true
+				continue
+			}
 			if fld == "*" {
 				set["H_*"] = true
 			} else {
@@ -708,3 +786,4 @@ func (vc *VC) modSetContract(ct *Contract, callee *ssa.Function, set map[string]
 		}
 	}
 }
+
